@@ -696,9 +696,91 @@ def check_failure_path(seed):
     return case, None
 
 
+# ----------------------------------------------------------------------------- per-case work (worker processes)
+
+def work(args):
+    """Everything that touches the implementation for one case (runs in a worker process):
+    step(), the identities on its outputs, oracle validation, the geometric identities."""
+    ci, case, tier, seed = args
+    import contextlib
+    import io
+    torch = impl.load()
+    torch.set_num_threads(1)
+    findings, stats = [], {}
+
+    def add(what, text, replay):
+        findings.append((key_of(case, what), text, replay))
+
+    def stat(k):
+        stats[k] = stats.get(k, 0) + 1
+
+    t0 = time.time()
+    with contextlib.redirect_stdout(io.StringIO()):
+        try:
+            out = run_step(case)
+        except Exception as e:  # noqa
+            add(f"raises:{type(e).__name__}", f"step(): {type(e).__name__}: {str(e)[:200]}", dict(case=case))
+            return dict(ci=ci, out=None, findings=findings, stats=stats, validated=0, t=time.time() - t0)
+        for what, text in check_step_outputs(case, out):
+            add(what, text, dict(case=case, impl=_slim(out)))
+        validated = 0
+        if not out["failed"]:
+            # recorded gradients vs autograd on a freshly built model
+            try:
+                fresh = fresh_gradients(case, [pos for pos, _ in out["table"]])
+                for r, ((pos, dU), fr) in enumerate(zip(out["table"], fresh)):
+                    bad = vec_close(dU, [F(v) for v in fr], 1e-9)
+                    validated += 1
+                    if bad:
+                        add("oracle-gradient", f"gradient used at step {r} is not the gradient of the target at the "
+                            f"position written into the parameters: {bad}",
+                            dict(case=case, step=r, position=pos, used=dU, autograd=fr))
+                        break
+            except Exception as e:  # noqa
+                add("oracle-gradient", f"fresh model: {type(e).__name__}: {str(e)[:200]}", dict(case=case))
+            if case["kind"] in ("mvn", "normal"):
+                text = check_shadow(case, out)
+                stat("shadow-energy:" + ("bad" if text else "ok"))
+                if text:
+                    add("shadow-energy", text, dict(case=case, impl=_slim(out)))
+            g = random.Random(seed * 1000003 + ci)
+            heavy = case["kind"] == "phylo"
+            c, o = case, out
+            tests = [("reversible", lambda b: check_reversible(b, c, c["q0"], o["p0"], g))]
+            if tier == "thorough" or (not heavy and c["n"] * (c["L"] + 1) <= 100) or (heavy and c["L"] <= 5):
+                tests.append(("jacobian-det", lambda b: check_jacobian(b, c, c["q0"], o["p0"])))
+            if tier == "thorough" or not heavy or ci % 2 == 0:
+                tests.append(("energy-order", lambda b: check_energy_order(b, c, c["q0"], g)))
+            try:
+                b = build(c)
+                for what, fn in tests:
+                    st, text = fn(b)
+                    stat(f"{what}:{st}")
+                    if st == "bad":
+                        add(what, text, dict(case=c, check=what))
+            except Exception as e:  # noqa
+                add(f"raises:{type(e).__name__}", f"integrator: {type(e).__name__}: {str(e)[:200]}", dict(case=c))
+    return dict(ci=ci, out=out, findings=findings, stats=stats, validated=validated, t=time.time() - t0)
+
+
+def work_failure(seed):
+    import contextlib
+    import io
+    torch = impl.load()
+    torch.set_num_threads(1)
+    with contextlib.redirect_stdout(io.StringIO()):
+        try:
+            return check_failure_path(seed)
+        except Exception as e:  # noqa
+            return None, f"{type(e).__name__}: {str(e)[:200]}"
+
+
 # ----------------------------------------------------------------------------- run
 
 def run(tier, seed, replay=None):
+    import concurrent.futures as cf
+    import multiprocessing as mp
+    import os
     rep = C.Report(PID, tier, seed)
     rep.trusted = C.COMMON_TRUSTED + [
         "hand-written model model/M_leapfrog.v (leapfrog, kinetic energy, Hastings term) tied by exact-rational "
@@ -708,7 +790,7 @@ def run(tier, seed, replay=None):
         "position (harness adaptor, not verified); the table itself is validated against autograd on a fresh model",
         "autograd (gradients of the shipped densities / tree likelihood) and torch tensor arithmetic are modelled, "
         "not verified (compared under relative 1e-9 in max-norm)",
-        "volume preservation beyond dimension 1 / linear gradients rests on the chain rule for Jacobians "
+        "volume preservation for nonlinear gradients in dimension > 1 rests on the chain rule for Jacobians "
         "(classical, not formalised) on top of the machine-checked shear decomposition and shear determinants",
         "recording: parameter listeners, wrappers around Hamiltonian.sample_momentum / kinetic_energy"]
     rng = random.Random(seed)
@@ -717,101 +799,49 @@ def run(tier, seed, replay=None):
     if replay:
         cases = [json.load(open(replay))["replay"]["case"]]
 
-    # ---- implementation runs
-    t0 = time.time()
-    outs = []
-    for c in cases:
-        try:
-            outs.append(run_step(c))
-        except Exception as e:  # noqa
-            outs.append(e)
-    rep.timings["impl_step"] = round(time.time() - t0, 2)
-
-    geo_stats = {}
-
-    def geometry():
-        """The property's identities evaluated on the implementation -> list of findings."""
-        found = {}
-        g = random.Random(seed + 1)
-        t1 = time.time()
-        for ci, (c, o) in enumerate(zip(cases, outs)):
-            if isinstance(o, Exception):
-                found.setdefault(key_of(c, f"raises:{type(o).__name__}"),
-                                 (key_of(c, f"raises:{type(o).__name__}"), f"{type(o).__name__}: {str(o)[:200]}",
-                                  dict(case=c)))
-                continue
-            for what, text in check_step_outputs(c, o):
-                found.setdefault(key_of(c, what), (key_of(c, what), text, dict(case=c, impl=_slim(o))))
-            if o["failed"]:
-                continue
-            if c["kind"] in ("mvn", "normal"):
-                text = check_shadow(c, o)
-                geo_stats["shadow"] = geo_stats.get("shadow", 0) + 1
-                if text:
-                    found.setdefault(key_of(c, "shadow-energy"), (key_of(c, "shadow-energy"), text,
-                                                                  dict(case=c, impl=_slim(o))))
-            # the more expensive identities on a deterministic subset
-            heavy = c["kind"] == "phylo"
-            tests = [("reversible", lambda b: check_reversible(b, c, c["q0"], o["p0"], g))]
-            if (not heavy and c["n"] * (c["L"] + 1) <= 120) or (heavy and ci % 3 == 0 and c["L"] <= 6) \
-                    or tier == "thorough":
-                tests.append(("jacobian-det", lambda b: check_jacobian(b, c, c["q0"], o["p0"])))
-            if not heavy or ci % 2 == 0 or tier == "thorough":
-                tests.append(("energy-order", lambda b: check_energy_order(b, c, c["q0"], g)))
-            try:
-                b = build(c)
-                for what, fn in tests:
-                    st, text = fn(b)
-                    geo_stats[f"{what}:{st}"] = geo_stats.get(f"{what}:{st}", 0) + 1
-                    if st == "bad":
-                        found.setdefault(key_of(c, what), (key_of(c, what), text, dict(case=c, check=what)))
-            except Exception as e:  # noqa
-                k = key_of(c, f"raises:{type(e).__name__}")
-                found.setdefault(k, (k, f"{type(e).__name__}: {str(e)[:200]}", dict(case=c)))
-        fc, text = check_failure_path(seed % 1000)
-        if text:
-            found.setdefault("C16:restore-on-failure", ("C16:restore-on-failure", text, dict(case=fc)))
-        rep.timings["impl_identities"] = round(time.time() - t1, 2)
-        return list(found.values())
-
+    # ---- everything on the implementation, in worker processes (started now, collected after the proofs)
+    t_impl = time.time()
+    ex = cf.ProcessPoolExecutor(max_workers=min(16, os.cpu_count() or 1, max(1, len(cases))),
+                                mp_context=mp.get_context("spawn"))
+    futs = [ex.submit(work, (ci, c, tier, seed)) for ci, c in enumerate(cases)]
+    fut_fail = ex.submit(work_failure, seed % 1000)
     cache = {}
 
+    def collect():
+        if "r" not in cache:
+            cache["r"] = [f.result() for f in futs]
+            cache["fail"] = fut_fail.result()
+            ex.shutdown()
+            rep.timings["impl_wall"] = round(time.time() - t_impl, 2)
+            rep.timings["impl_cpu"] = round(sum(r["t"] for r in cache["r"]), 2)
+        return cache["r"]
+
     def search():
-        if "g" not in cache:
-            cache["g"] = geometry()
-        return cache["g"]
+        """The property evaluated directly on the implementation -> list of findings."""
+        found = {}
+        for r in collect():
+            for f in r["findings"]:
+                found.setdefault(f[0], f)
+        fc, text = cache["fail"]
+        if text:
+            found.setdefault("C16:restore-on-failure", ("C16:restore-on-failure", text, dict(case=fc)))
+        return list(found.values())
 
     C.handle_proof(rep, PID, search)
     for f in search():
         rep.violation(*f)
-
-    # ---- oracle validation: recorded gradients vs autograd on a fresh model
-    t0 = time.time()
-    validated = 0
-    for c, o in zip(cases, outs):
-        if isinstance(o, Exception) or o["failed"]:
-            continue
-        try:
-            fresh = fresh_gradients(c, [pos for pos, _ in o["table"]])
-        except Exception as e:  # noqa
-            rep.violation(key_of(c, "oracle-gradient"), f"fresh model: {type(e).__name__}: {str(e)[:200]}", dict(case=c))
-            continue
-        for r, ((pos, dU), fr) in enumerate(zip(o["table"], fresh)):
-            bad = vec_close(dU, [F(v) for v in fr], 1e-9)
-            validated += 1
-            if bad:
-                rep.violation(key_of(c, "oracle-gradient"),
-                              f"gradient used at step {r} is not the gradient of the target at the position "
-                              f"written into the parameters: {bad}", dict(case=c, step=r, position=pos,
-                                                                           used=dU, autograd=fr))
-                break
-    rep.timings["oracle_validation"] = round(time.time() - t0, 2)
+    results = collect()
+    outs = [r["out"] for r in results]
+    geo_stats = {}
+    for r in results:
+        for k, v in r["stats"].items():
+            geo_stats[k] = geo_stats.get(k, 0) + v
 
     # ---- correspondence with the exact run of the model
     t0 = time.time()
     exprs, index = [], []
     for ci, (c, o) in enumerate(zip(cases, outs)):
-        if isinstance(o, Exception) or o["failed"]:
+        if o is None or o["failed"]:
             continue
         exprs.append(coq_case(c, o))
         index.append(ci)
@@ -832,8 +862,9 @@ def run(tier, seed, replay=None):
         vals = [Fraction(m[1], m[2]) for m in mod]
         want = nn + 1 + nn + (Ls + 1) * nn
         bad = None
-        if len(vals) != want:
-            bad = ("positions", f"model produced {len(vals)} numbers, expected {want}")
+        if len(vals) != want or len(o["trace"]) != Ls + 1:
+            bad = ("positions", f"model produced {len(vals)} numbers for {Ls} steps, implementation wrote "
+                                f"{len(o['trace'])} positions")
         else:
             mq1, mret, mp1, mtr = vals[:nn], vals[nn], vals[nn + 1:2 * nn + 1], vals[2 * nn + 1:]
             scale = max(maxabs(o["q1"]), maxabs(o["p1"]), max(maxabs(t) for t in o["trace"]))
@@ -855,9 +886,6 @@ def run(tier, seed, replay=None):
                 if abs(F(o["ret"]) - mret) > F(1e-9) * F(ks) * F(max(1.0, scale)):
                     bad = ("hastings", f"step() returned {o['ret']!r}, model K0 - K1 = {float(mret)!r}")
         if bad:
-            fs = [f for f in search() if f[0].split(":")[2:] == [c["kind"], c["mass_kind"]]]
-            for f in fs:
-                rep.violation(*f)
             rep.violation(key_of(c, "model-differs:" + bad[0]), f"{bad[1]} (eps={c['eps']:.4g}, L={c['L']}, n={nn})",
                           dict(case=c, impl=_slim(o), broken="correspondence M_leapfrog vs integrator.py/operator.py"),
                           True)
@@ -869,9 +897,11 @@ def run(tier, seed, replay=None):
                 "step() per operator with the momentum draw recorded; every case is non-trivial; distinct = distinct "
                 "configuration")
     rep.extra = dict(input_distribution=dist, model_undefined=undefined,
-                     traces_validated_against_impl=len(index), oracle_gradients_validated=validated,
+                     traces_validated_against_impl=len(index),
+                     oracle_gradients_validated=sum(r["validated"] for r in results),
                      identities_on_implementation=geo_stats,
-                     failed_steps=sum(1 for o in outs if not isinstance(o, Exception) and o["failed"]))
+                     retried_steps=sum(1 for o in outs if o and o["draws"] > 1),
+                     failed_steps=sum(1 for o in outs if o and o["failed"]))
     return rep.finish()
 
 
